@@ -452,6 +452,8 @@ package evaluator
 //@   ensures[C02 store] storeOK()
 //@   ensures[C10 scope-restored] e.scope == old(e.scope)
 //@   ensures[C02 unwraps] err == nil ==> is(lv, *anyVal) && r == lv.(*anyVal).V && okValue(r)
+//@   ensures[C02 C04 only-the-dynamic-type] err == nil ==> typeEq(lv.(*anyVal).T, ta.T)
+//@   ensures[C02 wrong-type-panics] ncalls("(*Evaluator).eval") == 1 && pending() == nil && is(lv, *anyVal) && !typeEq(lv.(*anyVal).T, ta.T) ==> err != nil
 //@   ensures[C02 mismatch] err != nil && ncalls("(*Evaluator).eval") == 1 && pending() == nil ==> wraps(err, ErrAnyConversion)
 //@   ensures[C02 error-no-value] err != nil ==> r == nil
 //@   modifies allbut evalFrame
